@@ -129,6 +129,23 @@ def oracle_c05(obs, part, replay):
                                'known_in': ids.get(winfo)}, replay)
             else:
                 part.count('warcinfo_pointers_checked')
+            if r['fmap'].get('content-type', [''])[0] == 'application/warc-fields':
+                # the block of a warcinfo record is itself a list of named fields: one line each (or folded
+                # continuation lines that start with white space), CRLF line ends
+                for ln in r['block'].split(b'\r\n'):
+                    if ln == b'':
+                        continue
+                    if b'\r' in ln or b'\n' in ln:
+                        part.violation('warc-fields-block-bare-cr-or-lf', {'file': name, 'line': ln[:80], 'config': cfg}, replay)
+                        break
+                    if ln[:1] in (b' ', b'\t'):
+                        continue
+                    if not refwarc.FIELD_RE.match(ln) and not re.match(br'^[^\s:]+:', ln):
+                        part.violation('warc-fields-block-line-not-a-named-field', {'file': name, 'line': ln[:80],
+                                                                                   'config': cfg}, replay)
+                        break
+                else:
+                    part.count('warc_fields_blocks_checked')
             bd = r['fmap'].get('warc-block-digest', [None])[0]
             if bd is not None:
                 if bd != refwarc.b32sha1(r['block']):
@@ -411,7 +428,7 @@ def main(prop, level_rule, required):
             rp = json.load(f)
         res = par.run_jobs(target, [{'seed': 0, 'replay': rp['replay'], 'property': prop}], 1)
     else:
-        total = int((240000 if check.thorough else 4800) * check.scale)
+        total = int((240000 if check.thorough else 3200) * check.scale)
         if prop == 'C04':
             total //= 3
         nj = check.jobs * (4 if check.thorough else 1)
